@@ -9,5 +9,7 @@ git reset -q 2>/dev/null
 ( cd /verif && ./check "$id" "$tier" ) 2>&1 | grep -E "^(VIOLATION|KNOWN-FINDING|INCONCLUSIVE|C[0-9]+ )|signature=" | head -12
 rc=${PIPESTATUS[0]}
 git checkout -- . 
+# evidence written by a run against a changed tree is not evidence about /repo: put the committed files back
+git -C /verif checkout -- evidence 2>/dev/null
 git status --porcelain --untracked-files=no | head
 echo "check exit=$rc"
